@@ -3,3 +3,4 @@ import OsmoVerif.Props.C12
 import OsmoVerif.Props.C13
 import OsmoVerif.Props.C14
 import OsmoVerif.Props.C18
+import OsmoVerif.Props.C14Mono
